@@ -37,6 +37,17 @@ _ODD_MACS = [bytes(6), b"\xff" * 6, b"ABCDEF", b"\x00\x00\x00\x00\x00\x01", b"\x
 _ODD_V4 = [bytes(4), b"\xff" * 4, bytes([127, 0, 0, 1]), bytes([10, 13, 10, 32]), bytes([1, 0, 0, 0]), bytes([0, 0, 0, 1])]
 
 
+LOOPBACK_PORTS = (61000, 61400)
+
+
+def map_target(rng):
+    """a random target port for -m pairs, outside the client-port band of loopback endpoints"""
+    while True:
+        p = rng.randrange(1, 65536)
+        if not LOOPBACK_PORTS[0] <= p < LOOPBACK_PORTS[1]:
+            return p
+
+
 def random_ep(rng, v6=None, sport=443, odd=0.3):
     """random MAC/IP/port values incl. all-zero, broadcast, ASCII-looking and zero-embedded addresses"""
     v6 = rng.random() < 0.4 if v6 is None else v6
@@ -57,11 +68,16 @@ def random_ep(rng, v6=None, sport=443, odd=0.3):
     ci, si = ip(), ip()
     while si == ci:
         si = ip()
-    if odd and rng.random() < 0.08:
+    loopback = bool(odd) and rng.random() < 0.08
+    if loopback:
         si, sm = ci, cm                                         # both endpoints on one host (loopback capture): only the ports tell the directions apart
     cport = rng.choice([1, 1024, 65535, rng.randrange(1, 65536), rng.randrange(32768, 61000)])
-    while cport == sport or cport in (443, 44330):
-        cport = rng.randrange(1024, 65536)
+    while cport == sport or cport in (443, 44330) or LOOPBACK_PORTS[0] <= cport < LOOPBACK_PORTS[1]:
+        cport = rng.randrange(1024, 61000)
+    if loopback:
+        # a -m mapping of the server port onto the client's port would make the two exported endpoints identical (the user's doing, not TLExport's):
+        # loopback clients use a port band that no generated mapping targets (map_target) and that is never a server port (8080 included)
+        cport = rng.randrange(*LOOPBACK_PORTS)
     cisn = rng.choice([0, 1, (1 << 32) - 1, (1 << 31), rng.randrange(0, 1 << 32), rng.randrange(0, 1 << 32)])
     r = rng.random()
     if r < 0.6:
